@@ -431,7 +431,7 @@ def lines_agree(ml, il):
     return abs_state(a) == abs_state(b), True
 
 
-def compare_history(h, mlines, ilines, in_projection, strict_image=False, informational=()):
+def compare_history(h, mlines, ilines, in_projection, strict_image=False, informational=(), claimed=None):
     """first disagreement inside the projection, or None.
     Returns dict(status=agree|diverge|unmodelled|outoffuel, index=..., ...)"""
     n = min(len(mlines), len(ilines))
@@ -451,7 +451,7 @@ def compare_history(h, mlines, ilines, in_projection, strict_image=False, inform
         if "UNSUPPORTED" in ml:
             return {"status": "diverge", "index": i, "model": ml, "impl": il,
                     "compared": compared, "abs_only": abs_only}
-        if op in informational:
+        if op in informational or (claimed is not None and i < len(h.ops) and not claimed(h.ops[i])):
             # compared to exercise the model, but outside the property's text: a disagreement is counted, not raised
             if not lines_agree(ml, il)[0]:
                 info += 1
